@@ -46,16 +46,18 @@ def sortStrings (l : List String) : List String := l.foldr insertSorted []
 
 def liveCount (blk : Block) : Nat := (blk.cells.filter (· == Cell.live)).length
 
-/-- accumulator of the snapshot: text, first defect found, number of (valid) owners per block -/
+/-- accumulator of the snapshot: text, defects found, number of (valid) owners per block -/
 structure Acc where
   out : String
-  bad : String
+  invalid : Bool := false
+  wrongalloc : Bool := false
+  leak : Bool := false
+  shared : Bool := false
   owners : List Nat
 
-def Acc.flag (a : Acc) (why : String) : Acc := if a.bad == "" then { a with bad := why } else a
-
-/-- the verdict on the invariant, computed in the same order as the harness computes its own (slots first, then blocks) -/
-def verdict (c : Cfg) (observe : Bool) (s : St) : String × String :=
+/-- the verdict on the invariant: the set of defects present, in the order the harness prints its own
+    (invalid, wrongalloc, leak, shared, extleak, wrongdealloc) -/
+def verdict (c : Cfg) (observe : Bool) (s : St) : String × Bool :=
   let slot (acc : Acc) (o : Option Arr) : Acc :=
     match o with
     | none => { acc with out := acc.out ++ " -" }
@@ -63,28 +65,29 @@ def verdict (c : Cfg) (observe : Bool) (s : St) : String × String :=
       let acc := { acc with out := acc.out ++ s!" [@{a.alloc} n{a.n} b" }
       if a.n = 0 then { acc with out := acc.out ++ "_]" } else
       match a.base with
-      | none => ({ acc with out := acc.out ++ "null]" } : Acc).flag "invalid"
+      | none => { acc with out := acc.out ++ "null]", invalid := true }
       | some b =>
         match s.blocks[b]? with
-        | none => ({ acc with out := acc.out ++ "?]" } : Acc).flag "invalid"
+        | none => { acc with out := acc.out ++ "?]", invalid := true }
         | some blk =>
           let acc := { acc with out := acc.out ++ (if blk.freed then "x" else "") ++ s!"{b}]" }
-          if blk.freed || blk.size != a.n then acc.flag "invalid" else
+          if blk.freed || blk.size != a.n then { acc with invalid := true } else
           let acc := { acc with owners := acc.owners.set b (acc.owners[b]! + 1) }
-          let acc := if observe && liveCount blk != a.n then acc.flag "invalid" else acc
-          if !c.eqv a.alloc blk.alloc then acc.flag "wrongalloc" else acc
-  let acc := s.arrs.foldl slot ⟨" | S", "", List.replicate s.blocks.length 0⟩
+          let acc := if observe && liveCount blk != a.n then { acc with invalid := true } else acc
+          if !c.eqv a.alloc blk.alloc then { acc with wrongalloc := true } else acc
+  let acc := s.arrs.foldl slot { out := " | S", owners := List.replicate s.blocks.length 0 }
   let acc := { acc with out := acc.out ++ " | O" }
   let blockStep (p : Acc × Nat) (blk : Block) : Acc × Nat :=
     let (acc, k) := p
     if blk.freed then (acc, k + 1) else
     let acc := { acc with out := acc.out ++ s!" {k}:{blk.size}:" ++ (if observe then toString (liveCount blk) else "_") }
-    let acc := if acc.owners[k]! == 0 then acc.flag "leak" else acc
-    let acc := if acc.owners[k]! > 1 then acc.flag "shared" else acc
+    let acc := if acc.owners[k]! == 0 then { acc with leak := true } else acc
+    let acc := if acc.owners[k]! > 1 then { acc with shared := true } else acc
     (acc, k + 1)
   let (acc, _) := s.blocks.foldl blockStep (acc, 0)
-  let acc := if s.wrong then acc.flag "wrongdealloc" else acc
-  (acc.out ++ " | inv " ++ (if acc.bad == "" then "ok" else "BAD:" ++ acc.bad), acc.bad)
+  let flags := [(acc.invalid, "invalid"), (acc.wrongalloc, "wrongalloc"), (acc.leak, "leak"), (acc.shared, "shared"), (s.wrong, "wrongdealloc")]
+  let bad := ",".intercalate ((flags.filter (·.1)).map (·.2))
+  (acc.out ++ " | inv " ++ (if bad == "" then "ok" else "BAD:" ++ bad), acc.invalid || acc.shared)
 
 def tagOf (s : St) (name : String) (op : Op) : String :=
   let same (x : Arr) (es : List Ext) := if extsEq x.ext es then "/same" else "/diff"
@@ -161,7 +164,7 @@ def stepStr : Option Step → String
 
 def runOp (d : DSt) (name : String) (op : Op) : DSt × List String :=
   if d.poisoned && name != "dtor" then (d, ["r skip"]) else
-  if !op.applicable d.st then (d, ["r skip"]) else
+  if !op.applicable d.cfg d.st then (d, ["r skip"]) else
   let tag := tagOf d.st name op
   let s0 : St := { d.st with log := [], wrong := false, fired := none }
   let finish (s : St) (status : String) : DSt × List String :=
@@ -178,13 +181,13 @@ def runOp (d : DSt) (name : String) (op : Op) : DSt × List String :=
       | .ctorExt i _ _ => s!" pat {patCells s i}"
       | .reextent i _ | .reextentRv i _ => if tag.endsWith "/diff" then s!" pat {patCells s i}" else ""
       | _ => ""
-    let (snap, bad) := verdict d.cfg d.observe s
-    ({ d with st := s, poisoned := d.poisoned || bad == "invalid" || bad == "shared" },
+    let (snap, poison) := verdict d.cfg d.observe s
+    ({ d with st := s, poisoned := d.poisoned || poison },
      [s!"r {tag} {status}{extra} | F{f} | I{i}{snap}"])
   match op.run d.cfg s0 with
   | .ok _ s => finish s "ok"
   | .threw s => finish s ("threw:" ++ stepStr s.fired)
-  | .term s => ({ d with st := s, halted := true }, [s!"r {tag} TERMINATED", "halt", "end halted"])
+  | .term s => ({ d with st := s, halted := true }, [s!"r {tag} TERMINATED:{stepStr s.fired}", "halt", "end halted"])
   | .ub s => ({ d with st := s, halted := true }, [s!"r {tag} CORRUPT", "halt"])
 
 def endLine (d : DSt) (terminated : Bool) : List String :=
